@@ -2,8 +2,14 @@
 """Prints the prompt for an independent mutation sub-agent: property text + scratch worktree, nothing from /verif."""
 import json, sys
 pid, wt = sys.argv[1], sys.argv[2]
+# optional third argument: a file with one line per change other engineers already proposed (taken from their own
+# notes, nothing about how or whether anything detects them)
+already = open(sys.argv[3]).read().strip() if len(sys.argv) > 3 else ""
 p = [json.loads(l) for l in open('/verif/properties.jsonl') if l.strip()]
 p = [x for x in p if x['id'] == pid][0]
+ALREADY = ""
+if already:
+    ALREADY = "OTHER ENGINEERS HAVE ALREADY PROPOSED THE FOLLOWING CHANGES FOR THIS PROPERTY - propose DIFFERENT ones (another clause of the property, another code site, another kind of trigger; prefer multi-step sequences, specific concrete standard-library types or values that the code special-cases, faults at a particular point, and effects visible only outside a function's return values):\n" + already + "\n\n"
 print(f"""You are given a Go library (github.com/go-openapi/runtime: HTTP server middleware and client transport for Swagger/OpenAPI APIs) in a scratch git worktree at {wt} and ONE behavioural property of it. Your job is to write realistic changes to the library that BREAK this property while the library still compiles and ALL of its existing tests still pass — the kind of regression a plausible refactoring, optimisation or "fix" could introduce and a code review could miss.
 
 THE PROPERTY ({p['id']}: {p['title']})
@@ -21,4 +27,4 @@ For each change i = 1..3 write, in the directory {wt}/_SEED/ (create it):
 
 RULES: work only inside {wt} (it is a git worktree: do not run `git commit`, `git worktree`, `git checkout <branch>`; never use `git stash` (it is shared between worktrees); use `git diff > file`, `git checkout -- .` and `git apply file` to move between the changed and unchanged state). Everything is offline: every shell call that runs go needs `export GOFLAGS=-mod=mod GOPROXY=off GOSUMDB=off GOTOOLCHAIN=local`. The existing test suite is `go test -vet=off -count=1 ./...` run in {wt} (about 10 s); it must pass with each change applied on its own (copying your demo file into the tree is only for your own verification: remove it again before running the suite, and leave the worktree's tracked files unchanged at the end — only the untracked _SEED/ directory (the leading underscore keeps the go tool from treating it as a package) stays). Do not look outside {wt} except for the Go standard library and module cache. Verify each change yourself before you report: (1) `go build ./...` succeeds, (2) the suite passes with the change, (3) the demo fails with the change, (4) the demo passes without it.
 
-FINAL REPORT: for each change, one paragraph: file(s) touched, the mechanism, what is needed to manifest, and the exact commands you ran to verify with their outcomes. If you could only produce fewer than three good changes, say so rather than padding with obvious ones.""")
+{ALREADY}FINAL REPORT: for each change, one paragraph: file(s) touched, the mechanism, what is needed to manifest, and the exact commands you ran to verify with their outcomes. If you could only produce fewer than three good changes, say so rather than padding with obvious ones.""")
